@@ -65,6 +65,15 @@ def enum_units(tier, seed):
         cases.append({"rom": "low", "files": {}, "ir": [org, {"k": "macro", "n": "m_t", "ps": ["i_0"], "b": [
             {"k": "for", "v": "i_1", "lo": lo_t, "hi": hi_t, "b": [db(["id", "i_0"], ["id", "i_1"])]}, {"k": "if", "c": ["bin", "-", L(2), ["id", "i_0"]], "t": [db(L(0x71))], "e": [db(L(0x72))]}]},
             {"k": "call", "n": "m_t", "args": [L(0)]}, {"k": "call", "n": "m_t", "args": [L(2)]}, {"k": "call", "n": "m_t", "args": [L(1)]}, db(L(0xEE))]})
+    # the loop variable (or a := constant written in the body, or a parameter of a macro applied in the body) has the name of an outer
+    # constant / label that is used again after the loop: once an iteration is closed the outer meaning is back
+    kn = {"k": "const", "n": "k_n", "e": L(9), "eager": True}
+    mset = {"k": "macro", "n": "m_set", "ps": ["k_n"], "b": [db(["id", "k_n"])]}
+    for body, lo, hi in (([db(["id", "k_n"])], 0, 3), ([{"k": "for", "v": "k_n", "lo": L(5), "hi": L(7), "b": [db(["id", "k_n"])]}, db(["id", "k_n"])], 1, 3),
+                         ([{"k": "call", "n": "m_set", "args": [L(0x41)]}, db(["id", "k_n"])], 0, 2),
+                         ([{"k": "if", "c": L(1), "t": [{"k": "const", "n": "k_m", "e": L(0x55), "eager": True}, db(["id", "k_m"])], "e": [db(L(0x66))]}, db(["id", "k_m"], ["id", "k_n"])], 0, 3)):
+        cases.append({"rom": "low", "files": {}, "ir": [kn, {"k": "const", "n": "k_m", "e": L(0x0A), "eager": True}, org, mset, db(["id", "k_n"]), {"k": "for", "v": "k_n", "lo": L(lo), "hi": L(hi), "b": body}, db(["id", "k_n"], ["id", "k_m"]),
+                                                       {"k": "data", "d": "dw", "es": [["bin", "+", ["id", "k_n"], L(0x100)]]}, {"k": "if", "c": ["id", "k_n"], "t": [db(["id", "k_n"])], "e": None}, db(L(0xEE))]})
     # condition values
     for c in (L(0), L(1), L(5), ["neg", L(1)], ["id", "k_undefined"], ["bin", "-", L(2), L(2)], ["bin", "&", L(6), L(3)]):
         for has_else in (False, True):
